@@ -403,6 +403,7 @@ func scnC13Read(rc *RunCtx) {
 	pipelinePolicy(rc)
 	mode := t.Choose(6, "state")
 	step := -1
+	slowSink := false
 	stopFeed := &doneFlag{}
 	rc.Cleanup(func() { stopFeed.set(nil) })
 	if mode == 5 {
@@ -466,8 +467,15 @@ func scnC13Read(rc *RunCtx) {
 		runToStepOrState(rc, func() bool { return false }, step, 0)
 		rc.Sim.Count("cancel_with_live_producer")
 	default: // mid-push: somewhere while processing
+		if t.Choose(2, "slow.sink") == 1 {
+			// the event sink is slow: a delivery batch of the parser is still being written when
+			// the cancellation arrives; Read waits for it, nothing is written after Read returned
+			rec.SlowMs = 40 + t.Choose(110, "slow.sink.ms")
+			slowSink = true
+			rc.Sim.Count("c13.slow_sink")
+		}
 		step = 10 + t.Choose(200, "cancel.step2")
-		runToStepOrState(rc, func() bool { return false }, step, 0)
+		runToStepOrState(rc, func() bool { return false }, step, 600)
 	}
 	qAtCancel := len(audits)
 	if qAtCancel > 0 {
@@ -484,8 +492,14 @@ func scnC13Read(rc *RunCtx) {
 		cancel()
 		rc.Sim.Count("ctx.cancel")
 	}
-	ok, why := settleAfterCancel(rc, func() bool { return res.v }, time.Second)
-	rc.CaseKey(mode, queued, step, byDeadline)
+	bound := time.Second
+	if slowSink {
+		// whatever is being written when the cancellation arrives (a delivery batch, the flush of
+		// a hold queue) is finished first: at most one write per line of the stream
+		bound += time.Duration((len(lines)+4)*rec.SlowMs) * time.Millisecond
+	}
+	ok, why := settleAfterCancel(rc, func() bool { return res.v }, bound)
+	rc.CaseKey(mode, queued, step, byDeadline, rec.SlowMs)
 	rc.R.NonTrivial = true
 	rc.R.Sample = map[string]any{"worker": "auditd.Read", "state": []string{"idle", "lines-queued", "mid-push", "maintenance-flush", "live-producer", "failure-burst"}[mode], "lines": len(lines), "queued_at_cancel": qAtCancel, "cancel_at_step": step, "returned": res.v, "err": fmt.Sprint(res.err)}
 	if !ok {
